@@ -6,6 +6,7 @@ package main
 
 import (
 	"fmt"
+	"go/ast"
 	"go/token"
 	"go/types"
 	"sort"
@@ -184,6 +185,16 @@ func (fc *FnCtx) analyze() {
 	byName := map[string][]ci{}
 	var rets []ci
 	k := 0
+	// variable names first: they are used to name call targets
+	for _, b := range fn.Blocks {
+		for _, in := range b.Instrs {
+			if x, ok := in.(*ssa.DebugRef); ok && !x.IsAddr {
+				if name := debugName(x); name != "" {
+					fc.dbg[name] = append(fc.dbg[name], x)
+				}
+			}
+		}
+	}
 	for _, b := range fn.Blocks {
 		for _, in := range b.Instrs {
 			k++
@@ -194,17 +205,6 @@ func (fc *FnCtx) analyze() {
 				byName[n] = append(byName[n], ci{in, in.Pos(), k})
 			case *ssa.Return:
 				rets = append(rets, ci{in, in.Pos(), k})
-			case *ssa.DebugRef:
-				if id, ok := x.Expr.(interface{ String() string }); ok {
-					_ = id
-				}
-				if x.IsAddr {
-					continue
-				}
-				name := debugName(x)
-				if name != "" {
-					fc.dbg[name] = append(fc.dbg[name], x)
-				}
 			}
 		}
 	}
@@ -258,6 +258,20 @@ func (fc *FnCtx) anchorName(c *ssa.CallCommon) string {
 // valueSourceName gives a source-level name for a func-typed value: the field
 // it was loaded from, or the parameter / captured variable name.
 func (fc *FnCtx) valueSourceName(v ssa.Value) string {
+	if _, isCall := v.(*ssa.Call); isCall {
+		// a call result bound to a local variable: use the variable's name
+		for name, refs := range fc.dbg {
+			for _, r := range refs {
+				if r.X == v {
+					if _, isVar := r.Object().(*types.Var); isVar {
+						if id, ok := r.Expr.(*ast.Ident); ok && id.Name == name {
+							return name
+						}
+					}
+				}
+			}
+		}
+	}
 	switch x := v.(type) {
 	case *ssa.Parameter:
 		return x.Name()
